@@ -22,7 +22,8 @@ class StdVector(Plugin):
 
     def elem_of(self, name):
         name = canon_type(name)
-        m = re.match(r'^std::vector<(.*)>$', name)
+        name = re.sub(r',\s*std::allocator<.*>\s*>$', '>', name)
+        m = re.match(r'^std::(?:vector|deque)<(.*)>$', name)
         return m.group(1).strip() if m else None
 
     def type_for(self, name, unit):
@@ -76,7 +77,7 @@ class StdVector(Plugin):
         name = me['name']
         recv = self._recv(unit, base, me.get('isArrow'))
         a = [unit.expr(x) for x in args]
-        if name in ('size', 'empty', 'data', 'resize', 'reserve', 'clear', 'pop_back'):
+        if name in ('size', 'empty', 'data', 'resize', 'reserve', 'clear', 'pop_back', 'pop_front'):
             return '%s_%s(%s)' % (cn, name, ', '.join([recv] + a))
         if name in ('begin', 'cbegin', 'rend', 'crend'): return '(%s->data)' % recv
         if name in ('end', 'cend', 'rbegin', 'crbegin'): return '(%s->data + %s->size)' % (recv, recv)
@@ -261,10 +262,11 @@ class OpaqueString(Plugin):
     def is_str(self, node):
         t = node.get('type', {})
         for qt in (t.get('desugaredQualType'), t.get('qualType')):
-            if qt and re.match(r'^(const )?(std::)?(__cxx11::)?(basic_string<char.*>|string)( const)?\s*[&*]*$', canon_type(qt).strip()): return True
+            if qt and '>::' not in qt and re.match(r'^(const )?(std::)?(__cxx11::)?(basic_string<char.*>|string)( const)?\s*[&*]*$', canon_type(qt).strip()): return True
         return False
     def type_for(self, name, unit):
         n = canon_type(name)
+        if '>::' in n: return None
         if n in ('std::string', 'std::basic_string<char>', 'string') or n.startswith('std::basic_string<char'): return 'struct v_str'
         return None
     def is_model_type(self, ct): return ct.replace('const ', '').strip() == 'struct v_str'
@@ -275,23 +277,59 @@ class OpaqueString(Plugin):
         if nm == 'empty': return '(%s->size == 0)' % f
         if nm in ('size', 'length'): return '(%s->size)' % f
         if nm in ('c_str', 'data'): return '((const char *)0)'
+        if nm == 'substr': return 'v_str_substr(%s)' % f
+        if nm == 'clear': return 'v_str_clear(%s)' % f
+        if nm in ('pop_back',): return 'v_str_pop_back(%s)' % f
+        if nm in ('erase',): return 'v_str_erase(%s, %s)' % (f, ', '.join(unit.expr(a) for a in args))
+        if nm in ('insert',): return 'v_str_insert(%s, %s)' % (f, unit.expr(args[0]))
+        if nm in ('push_back',): return 'v_str_push_back(%s)' % f
         raise Unsupported('std::string::%s on the opaque string model (in %s)' % (nm, unit.cur))
+    def is_cstr(self, node):
+        t = node.get('type', {}).get('qualType', '')
+        return bool(re.match(r'^const char ?(\*|\[\d*\])$', t.strip()))
     def operator_call(self, unit, n, rd, args):
-        if len(args) == 2 and rd.get('name') in ('operator==', 'operator!=') and self.is_str(args[0]) and self.is_str(args[1]):
-            e = '(v_str_eq(%s, %s))' % (unit.addr_of(args[0]), unit.addr_of(args[1]))
-            return e if rd['name'] == 'operator==' else '(!%s)' % e
+        op = rd.get('name')
+        if len(args) == 2 and op in ('operator==', 'operator!='):
+            e = None
+            if self.is_str(args[0]) and self.is_str(args[1]): e = '(v_str_eq(%s, %s))' % (unit.addr_of(args[0]), unit.addr_of(args[1]))
+            elif self.is_str(args[0]) and self.is_cstr(unit.strip(args[1])): e = '(v_str_eq_lit(%s))' % unit.addr_of(args[0])
+            if e: return e if op == 'operator==' else '(!%s)' % e
+        if len(args) == 2 and op == 'operator+' and (self.is_str(args[0]) or self.is_str(args[1])):
+            a = unit.addr_of(args[0]) if self.is_str(args[0]) else '((struct v_str *)0)'
+            b = unit.addr_of(args[1]) if self.is_str(args[1]) else '((struct v_str *)0)'
+            return 'v_str_cat(%s, %s)' % (a, b)
+        if len(args) == 2 and op == 'operator=' and self.is_str(args[0]):
+            if self.is_str(args[1]): return '(%s = %s)' % (unit.expr(args[0]), unit.expr(args[1]))
+            return '(%s = v_str_any())' % unit.expr(args[0])
+        if len(args) == 2 and op == 'operator[]' and self.is_str(args[0]):
+            return 'v_str_char(%s, %s)' % (unit.addr_of(args[0]), unit.expr(args[1]))
         return None
     def construct_expr(self, unit, n):
         if not self.is_str(n): return None
         ks = unit.kids(n)
         if len(ks) == 1 and self.is_str(ks[0]): return '(*%s)' % unit.addr_of(ks[0])
+        if not ks: return '((struct v_str){0, 0})'
+        if self.is_cstr(unit.strip(ks[0])): return 'v_str_any()'      # from a C string: contents abstract
+        real = [k for k in ks if k['kind'] != 'CXXDefaultArgExpr']
+        if len(real) == 2 and unit.is_intlike(real[0]):      # string(n, ch)
+            unit.stmt_may_throw = True
+            return 'v_str_n(%s)' % unit.expr(real[0])
+        return None
+    def free_call(self, unit, name, rd, args, n):
+        if name == 'stoi' and args and self.is_str(args[0]):
+            unit.stmt_may_throw = True
+            return 'v_stoi(%s)' % unit.addr_of(args[0])
         return None
     def field_init(self, unit, f, ct, target, e):
-        if e is None: return ['%s.size = 0; %s.tag = 0;' % (target, target)]
+        if e is None or (unit.strip_tmp(e)['kind'] == 'CXXConstructExpr' and not unit.kids(unit.strip_tmp(e))): return ['%s.size = 0; %s.tag = 0;' % (target, target)]
         return ['%s = %s;' % (target, unit.expr(e))]
     def local_object(self, unit, v, ct, name, ks, p):
         unit.w(p + 'struct v_str %s;' % name)
-        if ks: unit.w(p + '%s = %s;' % (name, unit.expr(ks[0])))
+        if ks and not (unit.strip_tmp(ks[0])['kind'] == 'CXXConstructExpr' and not unit.kids(unit.strip_tmp(ks[0]))):
+            unit.flush_expr_stmt('%s = %s;' % (name, unit.expr(ks[0])), p)
+            if unit.stmt_may_throw:
+                unit.stmt_may_throw = False
+                unit.w(p + 'if (__exc != 0)'); unit.w(p + '{'); unit.emit_exc_exit(p + '  '); unit.w(p + '}')
         else: unit.w(p + '%s.size = 0; %s.tag = 0;' % (name, name))
 
 
@@ -337,4 +375,28 @@ class Chrono(Plugin):
     def member_call(self, unit, n, me, base, args):
         if self.node_dur(base) and me['name'] == 'count':
             return '(%s)' % unit.expr(base)
+        return None
+
+
+class StringStreamSink(Plugin):
+    """std::stringstream / ostringstream used as a write-only sink whose .str() is sent somewhere: contents abstract"""
+    def is_ss(self, node):
+        t = node.get('type', {})
+        return any(qt and '>::' not in qt and re.search(r'basic_(o)?stringstream<char|std::(o)?stringstream', qt) for qt in (t.get('desugaredQualType'), t.get('qualType')))
+    def type_for(self, name, unit):
+        if '>::' in name: return None      # a member typedef of the stream (e.g. __string_type) is not the stream
+        if re.search(r'basic_(o)?stringstream<char|^(std::)?(o)?stringstream$', name): return 'struct v_sstream'
+        if re.search(r'basic_ostream<char', name): return 'struct v_sstream'
+        return None
+    def is_model_type(self, ct): return ct.replace('const ', '').strip() == 'struct v_sstream'
+    def local_object(self, unit, v, ct, name, ks, p):
+        unit.w(p + 'struct v_sstream %s; %s.n = 0;' % (name, name))
+    def operator_call(self, unit, n, rd, args):
+        if rd.get('name') == 'operator<<' and args and (self.is_ss(args[0]) or 'basic_ostream' in (args[0].get('type', {}).get('desugaredQualType') or args[0].get('type', {}).get('qualType', ''))):
+            # evaluate the right operand for its side effects / checks, append nothing observable
+            return '(*v_ss_put(%s, (%s, 0)))' % (unit.addr_of(args[0]), unit.expr(args[1]) if not unit.is_record_type(args[1]) else '(void)%s' % unit.addr_of(args[1]))
+        return None
+    def member_call(self, unit, n, me, base, args):
+        if self.is_ss(base) and me['name'] == 'str' and not args:
+            return 'v_str_any()'
         return None
